@@ -182,6 +182,12 @@ def gen_cases(run):
         if c['iters'] >= 1:
             extra.append(dict(c, family='time-limited', tlimit=1e-9, scores=None, refit=None, maximize=False, return_best=bool(k % 2), early=bool((k // 2) % 2)))
     cases += extra
+    # training sets beyond 2,048 rows (internal blocking of Gram-matrix code), one per kernel family; no feature learning (iters = 0)
+    for k, kern in enumerate(KERNELS if run.tier == 'thorough' else KERNELS[:4]):
+        cases.append(dict(family='large-leaf', kernel=list(kern), q=[1.0, 1.3, 0.7, 2.0][k % 4], diag=bool(k % 2),
+                          solver=['solve', 'cholesky', 'lu'][k % 3], lam=1e-2, iters=0, return_best=bool(k % 2), early=False, mult=1.1,
+                          adaptive=(k % 2 == 0), n=[2100, 2600][k % 2], d=3, outputs=1, pos='final', scores=None, bandwidth=3.0, xscale=1.0,
+                          dseed=r.randint(0, 10 ** 6), mbs=None, agop_best=False, refit=None, maximize=False))
     for c in cases:  # lpq needs q <= p; fix up
         if c['kernel'][0] == 'lpq':
             c['q'] = min(c['q'], c['kernel'][1]['norm_p'])
